@@ -186,7 +186,18 @@ func (x *schedExec) drive(prefix []int, maxPoints int, atPoint func() *pt.Violat
 			continue
 		}
 		if len(names) == 1 && names[0] == envExpire {
-			// only the environment can move: the lease expires
+			// only the environment can move: the lease expires. Without an earlier event of the environment (a lease that ran
+			// out while its holder was parked, a caller that gave up) nothing but the requests themselves can have produced
+			// this: they wait for each other, and only the lease timeout gets them out of it (with refusals)
+			envBefore := false
+			for _, t := range x.trace {
+				if strings.HasPrefix(t, "~env:") {
+					envBefore = true
+				}
+			}
+			if !envBefore {
+				return viol("C12:requests-wait-for-each-other", "every unfinished request waits for a lock and nothing else can run: the requests block each other until a lock lease runs out: %s; trace: %v", x.status(), x.trace)
+			}
 			idle++
 			if idle > 4 {
 				return viol("C12:hang:blocked-for-ever", "activities stay blocked although every lease expired: %s; trace: %v", x.status(), x.trace)
@@ -296,6 +307,16 @@ var divergeLog func(string)
 var lastDivergeMsg string
 
 func runSchedule(t *testing.T, sc schedScenario, prefix []int, maxPoints int) (res schedResult) {
+	defer func() {
+		// a violation that says "these goroutines stay blocked" leaves them blocked when the bubble ends, which synctest
+		// reports by panicking: the violation found is the report to keep
+		if r := recover(); r != nil {
+			if res.viol != nil && strings.Contains(fmt.Sprint(r), "blocked goroutines remain") {
+				return
+			}
+			panic(r)
+		}
+	}()
 	synctest.Test(t, func(t *testing.T) {
 		resetUIDs()
 		x := &schedExec{started: map[string]bool{}, done: map[string]bool{}}
